@@ -165,9 +165,15 @@ def check(run):
         ov = sqlfmt.overflow_pages(db.data, db.page_size)
         pages = sorted(set([p for p in ([2, 3, npages] + ov[:(8 if quick else 60)] + [rng.randrange(2, npages + 1) for _ in range(6 if quick else 40)]) if 2 <= p <= npages]))
         cmds = [c for (j, oid), c in oplist.items() if j == i]
+        # a zeroed overflow page is met by whatever reads through its chain: every full scan of every tree (low and high level)
+        # runs against it, plus a sample of the other operations
+        scans = [c for (j, oid), c in oplist.items() if j == i and oid.endswith(("/scan", "/iscan", "/hselect", "/hiselect"))]
         for pgno in pages:
             lines.append(("%d/zero%d" % (i, pgno), "zero %d" % pgno))
-            for n, cmd in enumerate(rng.sample(cmds, min(len(cmds), 6 if quick else 15))):
+            chosen = rng.sample(cmds, min(len(cmds), 6 if quick else 15))
+            if pgno in ov:
+                chosen = scans + [c for c in chosen if c not in scans]
+            for n, cmd in enumerate(chosen):
                 cid = "%d/z%d/%d" % (i, pgno, n)
                 lines.append((cid, cmd))
                 meta4[cid] = (db, cmd, pgno)
